@@ -114,7 +114,7 @@ def make_sigs(rng, shape, fs=64, n=160):
 def kw_variant(rng, i):
     th = {'amp_fraction_threshold': [0., .2, .3][i % 3], 'amp_consistency_threshold': [.2, .4, .6, .3][i % 4], 'period_consistency_threshold': [.3, .5, .4][(i // 2) % 3],
           'monotonicity_threshold': [.4, .5, .6][(i // 3) % 3], 'min_n_cycles': 1 + i % 3}
-    return {'threshold_kwargs': th, 'center_extrema': ['peak', 'trough'][i % 2]}
+    return {'threshold_kwargs': th, 'center_extrema': ['peak', 'trough'][(i // 2 + i // 3) % 2]}
 
 
 def simulate(delays, W, base=0.02):
@@ -175,7 +175,15 @@ def run_2d(sigs, fs, f_range, kwargs, n_jobs, progress, delays, logdir, via_grou
             with time_limit(), install():
                 if via_group:
                     k0 = kwargs
-                    g = BycycleGroup(center_extrema=k0.get('center_extrema', 'peak'), thresholds=copy.deepcopy(k0['threshold_kwargs']), return_samples=return_samples)
+                    if len(sigs) % 2:
+                        g = BycycleGroup(center_extrema=k0.get('center_extrema', 'peak'), thresholds=copy.deepcopy(k0['threshold_kwargs']), return_samples=return_samples)
+                    else:
+                        # the user constructs the object first and sets its (public) settings afterwards: a fit must use the CURRENT settings
+                        g = BycycleGroup(center_extrema='trough' if k0.get('center_extrema', 'peak') == 'peak' else 'peak',
+                                         thresholds={'amp_fraction_threshold': .9, 'min_n_cycles': 9}, return_samples=not return_samples)
+                        g.center_extrema = k0.get('center_extrema', 'peak')
+                        g.thresholds = copy.deepcopy(k0['threshold_kwargs'])
+                        g.return_samples = return_samples
                     g.fit(sigs, fs, f_range, axis=0, n_jobs=n_jobs, progress=progress)
                     out = [table_fp(d) for d in g.df_features]
                     models = [table_fp(m.df_features) if (m.sig is not None and np.array_equal(m.sig, sigs[i])) else -1 for i, m in enumerate(g.models)]
@@ -229,7 +237,12 @@ def run_3d(sigs, fs, f_range, kwargs, axis, n_jobs, delays, logdir, via_group=Fa
             warnings.simplefilter('ignore')
             with time_limit(), install():
                 if via_group:
-                    g = BycycleGroup(center_extrema=kwargs.get('center_extrema', 'peak'), thresholds=copy.deepcopy(kwargs['threshold_kwargs']))
+                    if (n0 + n1) % 2:
+                        g = BycycleGroup(center_extrema=kwargs.get('center_extrema', 'peak'), thresholds=copy.deepcopy(kwargs['threshold_kwargs']))
+                    else:
+                        g = BycycleGroup(center_extrema='trough' if kwargs.get('center_extrema', 'peak') == 'peak' else 'peak', thresholds={'min_n_cycles': 9})
+                        g.center_extrema = kwargs.get('center_extrema', 'peak')
+                        g.thresholds = copy.deepcopy(kwargs['threshold_kwargs'])
                     g.fit(sigs, fs, f_range, axis=axis, n_jobs=n_jobs, progress=progress)
                     res = g.df_features
                     models = [[table_fp(m.df_features) if np.array_equal(m.sig, sigs[i, j]) else -1 for j, m in enumerate(row)] for i, row in enumerate(g.models)]
